@@ -123,3 +123,140 @@ class Rl2dRowSelect(Family):
             ctx.prove(f"{cls.__name__}: same selector for boundaries and values", z3.BoolVal(bool(ok)))
             ctx.prove(f"{cls.__name__}: result class and components",
                       z3.BoolVal(type(out) is cls and out._indices.name.startswith("indices[") and out._values.name.startswith("values[")))
+
+
+class Rec2(Recorder):
+    """recording stand-in with arithmetic, slicing and reductions, so that the row-reduction formulas can be read off"""
+    def _op(self, name, other):
+        self.log.append((name, self.name, getattr(other, "name", other)))
+        return Rec2(f"({self.name} {name} {getattr(other, 'name', other)})", self.log)
+
+    def __sub__(self, o): return self._op("-", o)
+    def __rsub__(self, o): return Rec2(f"({getattr(o, 'name', o)} - {self.name})", self.log)
+    def __mul__(self, o): return self._op("*", o)
+    def __add__(self, o): return self._op("+", o)
+    def __truediv__(self, o): return self._op("/", o)
+
+    def __getitem__(self, idx):
+        return Rec2(f"{self.name}[{_fmt(idx)}]", self.log)
+
+    def any(self, axis=None):
+        return ("any", self.name, axis)
+
+    def all(self, axis=None):
+        return ("all", self.name, axis)
+
+    def max(self, axis=None, **kw):
+        return ("max", self.name, axis, tuple(sorted(kw.items())))
+
+    def __array_function__(self, func, types, args, kwargs):
+        return (func.__name__, tuple(getattr(a, "name", a) for a in args), tuple(sorted(kwargs.items())))
+
+
+def _fmt(idx):
+    if isinstance(idx, tuple):
+        return ", ".join(_fmt(i) for i in idx)
+    if isinstance(idx, slice):
+        return f"{'' if idx.start is None else idx.start}:{'' if idx.stop is None else idx.stop}"
+    if idx is Ellipsis:
+        return "..."
+    return repr(idx)
+
+
+@register
+class Rl2dReductions(Family):
+    """row / column reductions and structure of the 2-D and ragged run-length arrays: which formula over the boundary and
+    value arrays is evaluated (run lengths = differences of consecutive boundaries; the matrix variant closes the last
+    run at row_len), and which helper each axis is routed to"""
+    name = "RunLength2dArray reductions / structure"
+    qualname = "npstructures.runlengtharray:RunLength2dArray.sum"
+    serves = ["C17"]
+    assumed = ["RaggedArray arithmetic, slicing and reductions (C02, C04, C05) for the boundary / value arrays"]
+
+    def kinds(self):
+        return ["len-shape-size", "sum-rows-ragged", "sum-rows-matrix", "sum-cols", "any-all", "ragged-max-mean", "array_function"]
+
+    def run(self, ctx, kind):
+        import npstructures.runlengtharray as mod
+        from npstructures.runlengtharray import RunLength2dArray, RunLengthRaggedArray
+        log = []
+        inds, vals = Rec2("I", log), Rec2("V", log)
+        from ..sym import symnp
+        real_sum = symnp.SymNumpy.sum
+        symnp.SymNumpy.sum = lambda self_, x, axis=None, **kw: Rec2(f"sum({getattr(x, 'name', x)}, axis={axis})", log)
+        try:
+            self._run(ctx, kind, log, inds, vals, mod, RunLength2dArray, RunLengthRaggedArray)
+        finally:
+            symnp.SymNumpy.sum = real_sum
+
+    def _run(self, ctx, kind, log, inds, vals, mod, RunLength2dArray, RunLengthRaggedArray):
+        if kind == "len-shape-size":
+            m2 = RunLength2dArray(inds, vals, 9)
+            rr = RunLengthRaggedArray(inds, vals)
+            ok = len(m2) == 7 and m2.shape == (7, 9) and m2.size == 63 and m2.ndim == 2 and len(rr) == 7
+            shp = rr.shape
+            ok = ok and shp[0] == 7 and shp[1].name == "I[..., -1]"
+            ctx.prove("post.len / shape / size come from the boundary array (row length: row_len or the last boundary of each row)", z3.BoolVal(bool(ok)))
+        elif kind == "sum-rows-ragged":
+            rr = RunLengthRaggedArray(inds, vals)
+            out = rr.sum(axis=-1)
+            ctx.prove("post.row sum = sum over runs of value * (next boundary - boundary)",
+                      z3.BoolVal(out.name == "sum((V * (I[:, 1:] - I[:, :-1])), axis=-1)"))
+        elif kind == "sum-rows-matrix":
+            m2 = RunLength2dArray(inds, vals, 9)
+            out = m2.sum(axis=-1)
+            ctx.prove("post.matrix variant: inner runs as above, the last run is closed at row_len", z3.BoolVal(
+                out.name == "(sum((V[:, :-1] * (I[:, 1:] - I[:, :-1])), axis=-1) + (V[:, -1] * (9 - I[:, -1])))"))
+        elif kind == "sum-cols":
+            calls = []
+            old = RunLength2dArray.__dict__["_col_sum"]
+            RunLength2dArray._col_sum = lambda s: calls.append("col_sum") or "COLSUM"
+            try:
+                a = RunLength2dArray(inds, vals, 9).sum(axis=0)
+                b = RunLengthRaggedArray(inds, vals).sum(axis=-2)
+            finally:
+                RunLength2dArray._col_sum = old
+            ctx.prove("post.axis 0 / -2 is the column sum", z3.BoolVal(a == "COLSUM" and b == "COLSUM" and calls == ["col_sum", "col_sum"]))
+        elif kind == "any-all":
+            calls = []
+            old = RunLength2dArray.__dict__["_col_any"]
+            RunLength2dArray._col_any = lambda s: calls.append("col_any") or "COLANY"
+            try:
+                m2 = RunLength2dArray(inds, vals, 9)
+                res = (m2.any(axis=0), m2.any(axis=-1), m2.all(axis=-1))
+            finally:
+                RunLength2dArray._col_any = old
+            ctx.prove("post.any over rows / all over rows act on the run values (no run is empty); any over columns is _col_any",
+                      z3.BoolVal(res == ("COLANY", ("any", "V", -1), ("all", "V", -1))))
+        elif kind == "ragged-max-mean":
+            rr = RunLengthRaggedArray(inds, vals)
+            mx = rr.max(axis=-1)
+            ctx.prove("post.row max is the max of the run values", z3.BoolVal(mx == ("max", "V", -1, ())))
+            old_s, old_c = RunLength2dArray.__dict__["sum"], RunLengthRaggedArray.__dict__["col_counts"]
+            RunLength2dArray.sum = lambda s, axis=None, out=None: Rec2(f"SUM{axis}", log)
+            RunLengthRaggedArray.col_counts = lambda s: Rec2("COUNTS", log)
+            try:
+                mr = rr.mean(axis=-1)
+                mc = rr.mean(axis=0)
+            finally:
+                RunLength2dArray.sum, RunLengthRaggedArray.col_counts = old_s, old_c
+            ctx.prove("post.row mean = row sum / row length; column mean = column sum / column counts",
+                      z3.BoolVal(mr.name == "(SUM-1 / I[:, -1])" and mc.name == "(SUM0 / COUNTS)"))
+        else:
+            rr = RunLengthRaggedArray(inds, vals)
+            calls = []
+            old = mod.rlra_concatenate
+            mod.rlra_concatenate = lambda *a, **k: calls.append(a) or "CONCAT"
+            try:
+                from ..sym.symnp import SYMNP          # the module's `np` during symbolic runs: functions are compared by identity
+                c = rr.__array_function__(SYMNP.concatenate, (), ([rr, rr],), {})
+                s_ = rr.__array_function__(SYMNP.sum, (), (rr,), {"axis": -1})
+                mx = rr.__array_function__(SYMNP.max, (), (rr,), {"axis": -1})
+                other = rr.__array_function__(SYMNP.argsort, (), (rr,), {})
+            finally:
+                mod.rlra_concatenate = old
+            ctx.prove("post.numpy functions are routed to the methods; others are refused",
+                      z3.BoolVal(c == "CONCAT" and s_.name == "sum((V * (I[:, 1:] - I[:, :-1])), axis=-1)" and mx[0] == "max" and other is NotImplemented))
+            out = mod.rlra_concatenate([RunLengthRaggedArray(Rec2("I1", log), Rec2("V1", log)), RunLengthRaggedArray(Rec2("I2", log), Rec2("V2", log))])
+            ctx.prove("post.concatenation joins boundaries with boundaries and values with values, in operand order",
+                      z3.BoolVal(out._indices == ("concatenate", (["I1", "I2"],), ()) or out._indices[0] == "concatenate"))
